@@ -121,6 +121,32 @@ pub fn hook(gn: &mut Gen, w: &mut World) -> Option<Step> {
             if w.nodes[victim].key_packages.is_empty() || victim == node {
                 return None;
             }
+            if gn.rng().chance(1, 6) && !gn.cfg.guards.contains("no_rotation") {
+                // the story of an invitation that takes the Nostr group id a group of the victim
+                // is being rotated to: rotation commit published, invitation received (declined
+                // or left pending), then the rotation commit reaches the victim
+                let admins: Vec<usize> = (0..n_nodes).filter(|a| *a != victim && w.is_admin(*a, g) && w.is_active_member(*a, g) && !w.has_pending_commit(*a, g)).collect();
+                if w.is_active_member(victim, g) && !admins.is_empty() && w.node_state(victim, g) == w.node_state(admins[0], g) {
+                    let a = admins[0];
+                    let rot = gn.mk(w, a, 1, Op::UpdateData { g, variant: 4, arg: seed % 1000 });
+                    let rot_ev = EvRef(rot.id, 0);
+                    let st = gn.mk(w, a, 0, Op::MergePending { g });
+                    gn.queue.push_back(st);
+                    let hw = gn.mk(w, node, 0, Op::Hostile(HostileOp::HostileWelcome { victim, mode: 6, g, seed }));
+                    let wref = EvRef(hw.id, 0);
+                    gn.queue.push_back(hw);
+                    let st = gn.mk(w, victim, 0, Op::ProcessWelcome { w: wref });
+                    gn.queue.push_back(st);
+                    if gn.rng().chance(1, 2) {
+                        let st = gn.mk(w, victim, 0, Op::DeclineWelcome { w: wref });
+                        gn.queue.push_back(st);
+                    }
+                    let st = gn.mk(w, victim, 0, Op::Deliver { ev: rot_ev });
+                    gn.queue.push_back(st);
+                    w.probe("id_squatting_story_scripted");
+                    return Some(rot);
+                }
+            }
             if gn.rng().chance(1, 5) && !w.welcomes.is_empty() {
                 let i = gn.rng().below(w.welcomes.len() as u64) as usize;
                 HostileOp::RewrappedWelcome { w: w.welcomes[i].origin, seed }
